@@ -8,6 +8,7 @@ import PsProofs.Segments
 import PsProofs.SegmentCorrect
 import PsProofs.Feed
 import PsProofs.TinySieve
+import PsProofs.Schedule
 import Mathlib.Tactic.NormNum.Prime
 import Mathlib.Tactic.IntervalCases
 import PsModel.Generated.Locks
@@ -345,6 +346,49 @@ theorem C01_inner_feed_primes (n high tinyIdx : Nat) (hodd : tinyIdx % 2 = 1) (h
 example : ((List.range 41).filter (fun k => k % 2 = 1 ∧ 3 ≤ k ∧ (Feed.tinySieve 40).getD k false)) = [3, 5, 7, 11, 13, 17, 19, 23, 29, 31, 37] := by
   decide +kernel
 example : Feed.tinyFeed (fun j => (Feed.tinySieve 40).getD j false) 1000 5 = (33, [5, 7, 11, 13, 17, 19, 23, 29, 31]) := by
+  decide +kernel
+
+/-- **C01 (one sieving prime, one segment)**: the loop shape of EratSmall / EratMedium / EratBig::crossOff for a stored sieving
+    prime — `while (multipleIndex < sieveSize) { clear bit; multipleIndex += …; wheelIndex = next }  multipleIndex -= sieveSize` —
+    started from a state that denotes the multiple p·q relative to the segment start L (what addSievingPrime establishes:
+    C01_first_multiple): it performs the first n steps of the exact walk (C01_crossoff_walk_exact) where n is the first step
+    whose byte index is ≥ S; the (byte, bit) pairs it clears are exactly those of the walk positions 0..n-1, all at bytes < S;
+    and the state it stores denotes the n-th walk position relative to the NEXT segment start L + 30·S.
+    For both wheels, every S, L and sieving prime ≥ 30. -/
+theorem C01_crossoff_one_segment (big : Bool) (L S : Nat) (s : Wheel.SP) (q : Nat)
+    (h : Wheel.Denotes (if big then 210 else 30) L s q) (hsp : 0 < s.sp) :
+    let M := if big then 210 else 30
+    ∃ n, (Wheel.crossSeg M S (S + 1) s []).1 = { (Wheel.walk M n s q).1 with idx := (Wheel.walk M n s q).1.idx - S } ∧
+      S ≤ (Wheel.walk M n s q).1.idx ∧
+      Wheel.Denotes M (L + 30 * S) (Wheel.crossSeg M S (S + 1) s []).1 (Wheel.walk M n s q).2 ∧
+      (Wheel.crossSeg M S (S + 1) s []).2 =
+        (List.range n).map (fun j => ((Wheel.walk M j s q).1.idx, Wheel.bitOf M (Wheel.walk M j s q).1)) ∧
+      ∀ j, j < n → (Wheel.walk M j s q).1.idx < S := by
+  cases big
+  · simpa using Wheel.crossSeg_spec 30 L S (Wheel.hstep30 L) (S + 1) s q [] h hsp (by omega)
+  · simpa using Wheel.crossSeg_spec 210 L S (Wheel.hstep210 L) (S + 1) s q [] h hsp (by omega)
+
+/-- **C01 (one sieving prime across all segments)**: by induction over ANY list of segment sizes, the state stored after the
+    last of them denotes a multiple of the same sieving prime relative to the start of the following segment, with a
+    quotient not below the first one: the position of a sieving prime never falls behind the segment grid and never
+    restarts, however the interval is cut into segments. -/
+theorem C01_crossoff_across_segments (big : Bool) (Ss : List Nat) (L : Nat) (s : Wheel.SP) (q : Nat)
+    (h : Wheel.Denotes (if big then 210 else 30) L s q) (hsp : 0 < s.sp) :
+    let M := if big then 210 else 30
+    ∃ q', q ≤ q' ∧ Wheel.Denotes M (L + 30 * Ss.sum) (Wheel.crossSegs M Ss s).2 q' ∧ 0 < (Wheel.crossSegs M Ss s).2.sp := by
+  cases big
+  · simpa using Wheel.crossSegs_inv 30 Wheel.hstep30 Ss L s q h hsp
+  · simpa using Wheel.crossSegs_inv 210 Wheel.hstep210 Ss L s q h hsp
+
+/-- non-vacuity: sieving prime 167 added at L = 0 (stop = 10^6; first multiple 167² at byte 929) and carried over three
+    segments of 1000, 500 and 2000 bytes: 4 + 24 + 95 positions are cleared, each inside its segment, and processing
+    segment-wise clears as many positions and ends in the same stored state as one segment of 3500 bytes -/
+example :
+    let s0 := (Wheel.addSievingPrime 30 8 Gen.wheel30Init 1000000 167 0).getD default
+    let r := Wheel.crossSegs 30 [1000, 500, 2000] s0
+    let one := Wheel.crossSeg 30 3500 3501 s0 []
+    0 < s0.sp ∧ r.1.map List.length = [4, 24, 95] ∧ (r.1.map (fun c => c.all (fun e => e.1 < 2000))) = [true, true, true] ∧
+    one.2.length = 123 ∧ r.2 = one.1 := by
   decide +kernel
 
 end Ps.Props
